@@ -348,6 +348,7 @@ type observed struct {
 	Say         *ivr       `json:"say_msg"`    // ivr_created of say_msg (nil = skipped)
 	Play        *ivr       `json:"play_audio"` // ivr_created of play_audio (nil = skipped)
 	Errors      int        `json:"error_events"`
+	TplPanic    string     `json:"template_panic,omitempty"`
 	TplVars     []string   `json:"template_variables"` // values of the templating variables of the templated message
 	ForContact  []bcastTr  `json:"broadcast_for_contact"` // BroadcastTranslations.ForContact for a recipient of each language (Lang = recipient's language; the locale's language is in Locale)
 	ForLocale   []int      `json:"broadcast_for_contact_locale"`
@@ -455,7 +456,10 @@ func run(c *config) (*observed, error) {
 		return nil, err
 	}
 	if err := runTemplate(c, env, sa, eng, o); err != nil {
-		return nil, err
+		if !strings.HasPrefix(err.Error(), "PANIC") {
+			return nil, err
+		}
+		o.TplPanic = err.Error()
 	}
 	if o.Bcast == nil {
 		return nil, fmt.Errorf("no broadcast_created event")
@@ -596,11 +600,16 @@ func nonEmpty(arr []string) bool { return arr != nil && len(arr) > 0 && !(len(ar
 
 // pick returns what the statement prescribes for one property: value and language used
 func pick(c *config, prop string, native []string) ([]string, int) {
+	return pickL(c, c.effLang(), prop, native)
+}
+
+// the same for a contact of language cl
+func pickL(c *config, cl int, prop string, native []string) ([]string, int) {
 	var cands []int
-	if c.effLang() != 0 {
+	if cl != 0 {
 		for _, a := range c.Allowed {
-			if a == c.effLang() {
-				cands = append(cands, c.effLang())
+			if a == cl {
+				cands = append(cands, cl)
 				break
 			}
 		}
@@ -668,6 +677,9 @@ func eqs(a, b []string) bool {
 func oracle(c *config, o *observed, res *hx.Result) {
 	fail := func(class, detail string) { res.Fail(class, c, detail) }
 	txt, tl := pick(c, "text", []string{c.BaseText})
+	if c.EvalEmpty { // every text of the message evaluates to "": the message is created without text
+		txt = []string{""}
+	}
 	if o.Text != txt[0] {
 		fail("text-choice", fmt.Sprintf("text %q, statement prescribes %q", o.Text, txt[0]))
 	}
@@ -691,16 +703,27 @@ func oracle(c *config, o *observed, res *hx.Result) {
 		fail("locale", fmt.Sprintf("locale language %q, statement prescribes %q", langCodes[o.Lang], langCodes[want]))
 	}
 	// router: arguments by the same chain (ignored when of a different length); category name localized
-	args, _ := pick(c, "arguments", c.BaseArgs)
-	if len(args) != len(c.BaseArgs) {
-		args = c.BaseArgs
-	}
+	// the statement knows no length rule: the arguments the chain picks are the ones compared (a has_number_between
+	// given another number of arguments than two matches nothing)
+	args, argLang := pick(c, "arguments", c.BaseArgs)
 	wantCat := "Other"
 	if len(args) == 2 && args[0] == "1" && args[1] == "10" {
 		wantCat = "Bob"
 	}
 	if o.RouterCat != wantCat {
-		fail("router-arguments", fmt.Sprintf("router category %q, statement prescribes %q", o.RouterCat, wantCat))
+		class := "router-arguments"
+		// the code ignores a translation whose length differs from the base arguments' and compares the BASE
+		// arguments instead: if that explains what is observed, it is that (recorded) finding
+		if len(args) != len(c.BaseArgs) {
+			baseCat := "Other"
+			if len(c.BaseArgs) == 2 && c.BaseArgs[0] == "1" && c.BaseArgs[1] == "10" {
+				baseCat = "Bob"
+			}
+			if o.RouterCat == baseCat {
+				class = "router-arguments:translation-of-other-length-replaced-by-base"
+			}
+		}
+		fail(class, fmt.Sprintf("router category %q, statement prescribes %q (arguments %v of %q)", o.RouterCat, wantCat, args, langCodes[argLang]))
 	}
 	if wantCat == "Bob" && o.RouterCat == "Bob" {
 		name, _ := pick(c, "name", []string{""})
@@ -730,7 +753,7 @@ func oracle(c *config, o *observed, res *hx.Result) {
 			fail("broadcast-languages", fmt.Sprintf("broadcast has a translation for %q", langCodes[b.Lang]))
 			continue
 		}
-		if t := pickFor(c, "text", []string{c.BaseText}, b.Lang); b.Text != t[0] {
+		if t := pickFor(c, "text", []string{c.BaseText}, b.Lang); b.Text != t[0] && !(c.EvalEmpty && b.Text == "") {
 			fail("broadcast-text-choice", fmt.Sprintf("%s text %q, statement prescribes %q", langCodes[b.Lang], b.Text, t[0]))
 		}
 		if a := pickFor(c, "attachments", c.BaseAtts, b.Lang); !eqs(b.Atts, a) {
@@ -789,7 +812,96 @@ func oracle(c *config, o *observed, res *hx.Result) {
 			fail("play-audio-locale", fmt.Sprintf("play_audio locale %q, its attachment is in %q", langCodes[o.Play.Lang], langCodes[pal]))
 		}
 	}
-	res.OracleChecks += 10
+	// templated message: its variables are a localized property of the action like any other
+	tv, _ := pick(c, "template_variables", c.BaseVars)
+	wantVars := []string{"", ""}
+	for i := range wantVars {
+		if i < len(tv) {
+			wantVars[i] = tv[i]
+		}
+	}
+	if o.TplPanic != "" {
+		fail("panic:templated-send_msg", o.TplPanic)
+	} else if !eqs(o.TplVars, wantVars) {
+		fail("template-variables-choice", fmt.Sprintf("template variables %v, statement prescribes %v", o.TplVars, wantVars))
+	}
+	// what a recipient of the broadcast gets (BroadcastTranslations.ForContact over the event): the chain for THAT contact
+	for i, fc := range o.ForContact {
+		rl := fc.Lang
+		part := func(prop string, native []string) ([]string, int) {
+			v, l := pickL(c, rl, prop, native)
+			if prop == "text" && c.EvalEmpty {
+				v = []string{""}
+			}
+			return v, l
+		}
+		wt, wtl := part("text", []string{c.BaseText})
+		wa, wal := part("attachments", c.BaseAtts)
+		wq, wql := part("quick_replies", c.BaseQRs)
+		wl := 0
+		if wt[0] != "" {
+			wl = wtl
+		} else if len(wa) > 0 {
+			wl = wal
+		} else if len(wq) > 0 {
+			wl = wql
+		}
+		// what the event's base-filled entries explain: every language's entry holds the base value for a part it has
+		// no translation of, and ForContact takes the first non-empty part along [recipient if allowed, default, base]
+		var chain []int
+		if rl != 0 {
+			for _, a := range c.Allowed {
+				if a == rl {
+					chain = append(chain, rl)
+				}
+			}
+		}
+		if len(c.Allowed) > 0 {
+			chain = append(chain, c.Allowed[0])
+		}
+		chain = append(chain, baseLang)
+		inEvent := map[int]bool{baseLang: true}
+		for _, l := range locLangs(c) {
+			inEvent[l] = true
+		}
+		et, etl, ea, eq := "", 0, []string{}, []string{}
+		for _, l := range chain {
+			if !inEvent[l] {
+				continue
+			}
+			if t := pickFor(c, "text", []string{c.BaseText}, l); et == "" && t[0] != "" && !c.EvalEmpty {
+				et, etl = t[0], l
+			}
+			if a := pickFor(c, "attachments", c.BaseAtts, l); len(ea) == 0 && len(a) > 0 {
+				ea = a
+			}
+			if q := pickFor(c, "quick_replies", c.BaseQRs, l); len(eq) == 0 && len(q) > 0 {
+				eq = q
+			}
+		}
+		cls := func(part string, explained bool) string {
+			if explained {
+				return "broadcast-for-contact:" + part + ":untranslated-part-filled-with-base"
+			}
+			return "broadcast-for-contact:" + part
+		}
+		who := fmt.Sprintf("recipient language %q", langCodes[rl])
+		if fc.Text != wt[0] {
+			fail(cls("text", fc.Text == et), fmt.Sprintf("%s gets text %q, statement prescribes %q", who, fc.Text, wt[0]))
+		}
+		if !eqs(fc.Atts, wa) {
+			fail(cls("attachments", eqs(fc.Atts, ea)), fmt.Sprintf("%s gets attachments %v, statement prescribes %v", who, fc.Atts, wa))
+		}
+		if !eqs(fc.QRs, wq) {
+			fail(cls("quick-replies", eqs(fc.QRs, eq)), fmt.Sprintf("%s gets quick replies %v, statement prescribes %v", who, fc.QRs, wq))
+		}
+		if o.ForLocale[i] != wl {
+			// ForContact only ever reports the language that supplied the text
+			explained := o.ForLocale[i] == etl
+			fail(cls("locale", explained), fmt.Sprintf("%s: locale language %q, statement prescribes %q", who, langCodes[o.ForLocale[i]], langCodes[wl]))
+		}
+	}
+	res.OracleChecks += 16
 }
 
 // ---- Coq emission ----------------------------------------------------------------------------------
@@ -812,6 +924,8 @@ func caseCoq(c *config, o *observed) string {
 		"     k_o_text := %s; k_o_atts := %s; k_o_qrs := %s; k_o_lang := %s; k_o_setres := %s; k_o_matched := %s; k_o_catl := %s;\n"+
 		"     k_loc_langs := %s; k_o_bcast := %s;\n"+
 		"     k_audio := %s; k_tr_subject := %s; k_tr_body := %s; k_tr_say_text := %s; k_tr_say_audio := %s; k_tr_play_audio := %s;\n"+
+		"     k_eval_empty := %s; k_tvars := %s; k_tr_tvars := %s; k_o_tvars := %s;\n"+
+		"     k_o_forc := %s; k_o_forc_lang := %s;\n"+
 		"     k_o_email := %s; k_o_say := %s; k_o_play := %s |}",
 		hx.N(c.effLang()), hx.List(c.Allowed, hx.N), hx.Str(c.BaseText), hx.List(c.BaseAtts, hx.Str), hx.List(c.BaseQRs, hx.Str), hx.List(c.BaseArgs, hx.Str),
 		trCoq(c, "text"), trCoq(c, "attachments"), trCoq(c, "quick_replies"), trCoq(c, "arguments"), trCoq(c, "name"), trCoq(c, "category"),
@@ -820,6 +934,10 @@ func caseCoq(c *config, o *observed) string {
 			return fmt.Sprintf("(%s, (%s, (%s, %s)))", hx.N(b.Lang), hx.Str(b.Text), hx.List(b.Atts, hx.Str), hx.List(b.QRs, hx.Str))
 		}),
 		hx.Str(c.BaseAudio), trCoq(c, "subject"), trCoq(c, "body"), trCoq(c, "say_text"), trCoq(c, "say_audio"), trCoq(c, "play_audio"),
+		hx.Bool(c.EvalEmpty), hx.List(c.BaseVars, hx.Str), trCoq(c, "template_variables"), hx.List(o.TplVars, hx.Str),
+		hx.List(o.ForContact, func(b bcastTr) string {
+			return fmt.Sprintf("(%s, (%s, (%s, %s)))", hx.N(b.Lang), hx.Str(b.Text), hx.List(b.Atts, hx.Str), hx.List(b.QRs, hx.Str))
+		}), hx.List(o.ForLocale, hx.N),
 		emailCoq(o.Email), ivrCoq(o.Say), ivrCoq(o.Play))
 }
 
@@ -885,6 +1003,8 @@ func main() {
 					if k%2 == 1 {
 						c.BaseAudio = "http://x.io/base.mp3"
 					}
+					c.EvalEmpty = k%7 == 5
+					c.BaseVars = []string{"v1", "v2"}
 					c.BaseArgs = []string{"1", "10"}
 					if k%3 == 1 {
 						c.BaseArgs = []string{"20", "30"}
@@ -905,6 +1025,8 @@ func main() {
 							baseLen = len(c.BaseQRs)
 						case "arguments":
 							baseLen = len(c.BaseArgs)
+						case "template_variables":
+							baseLen = len(c.BaseVars)
 						}
 						a2, _ := stored(s2, p.name, 2, baseLen)
 						a3, _ := stored(s3, p.name, 3, baseLen)
